@@ -234,6 +234,95 @@ def with_ref(lines):
     return [ref_line(l) for l in lines]
 
 
+def strip_tags(v):
+    """the data-model core of a generated value: no tags (the cbor_parser model's fragment)"""
+    if isinstance(v, Tagged):
+        return v if v.tag == "undefined" else strip_tags(v.value)
+    if isinstance(v, list):
+        return [strip_tags(x) for x in v]
+    if isinstance(v, Obj):
+        return Obj([(k, strip_tags(x)) for k, x in v.members])
+    return v
+
+
+def model_inputs(rng, n, tier):
+    """inputs for the cbor_parser model beyond `cbor_inputs`: tag-free items in every width and form with their mutations and
+    prefixes, maps whose keys are not text strings (integers, booleans, null, undefined, byte strings, floats, containers),
+    deep nesting (decoded under small max_nesting_depth limits as well), chunked strings cut inside a UTF-8 sequence"""
+    out = []
+    for _ in range(n):
+        v = strip_tags(gen_value(rng, rng.randint(0, 3)))
+        b = binfmt.cbor_encode(v, rng, minimal=rng.random() < 0.3)
+        out.append(("-", b))
+        r = rng.random()
+        if r < 0.4:
+            out.append(("-", binfmt.mutate_bytes(rng, b)))
+        elif r < 0.5:
+            out.append(("-", b[:rng.randrange(len(b) + 1)]))
+        elif r < 0.6:
+            out.append(("-", binfmt.mutate_bytes(rng, binfmt.mutate_bytes(rng, b))))
+        if rng.random() < 0.25:
+            out.append(("d%d" % rng.randint(0, 4), b))
+    scal = lambda: rng.choice([0, 1, 23, 24, 255, 65536, 2 ** 64 - 1, -1, -25, -2 ** 63, -2 ** 63 - 1, True, False, None, Tagged("undefined", None),
+                               ("b", b""), ("b", b"\x00"), ("b", b"\xfb\xff"), ("b", b"abc"), ("b", bytes(rng.randrange(256) for _ in range(rng.randint(0, 7)))),
+                               b"a", b"", b"\xc3\xa9", ("e", 0x3c00), ("f32", 0x3fc00000), ("d", 0x3ff8000000000000), [], [1], Obj([])])
+    for _ in range(n // 4):
+        k = rng.randint(0, 4)
+        pairs = [(scal(), strip_tags(gen_value(rng, rng.randint(0, 1)))) for _ in range(k)]
+        body = b"".join(binfmt.cbor_encode(a, rng, False) + binfmt.cbor_encode(x, rng, False) for a, x in pairs)
+        m = (b"\xbf" + body + b"\xff") if rng.random() < 0.4 else (binfmt.cbor_head(5, k, rng, False) + body)
+        out.append(("-", m))
+        if rng.random() < 0.3:
+            out.append(("-", binfmt.mutate_bytes(rng, m)))
+        if rng.random() < 0.2:
+            out.append(("-", b"\x81" + m))
+    for d in range(0, 8):
+        for lim in ("-", "d0", "d1", "d2", "d3", "d7", "d8"):
+            out.append((lim, b"\x81" * d + b"\x00"))
+            out.append((lim, b"\x9f" * d + b"\xf6" + b"\xff" * d))
+            out.append((lim, b"\xa1\x61\x61" * d + b"\x01"))
+            out.append((lim, b"\xbf\x60" * d + b"\x9c" + b"\xff" * d))
+    for depth in (1023, 1024, 1025):
+        out.append(("-", b"\x81" * depth + b"\x00"))
+        out.append(("-", b"\x9f" * depth + b"\xff" * depth))
+    for s in (b"\x7f\x61\xc3\x61\xa9\xff", b"\x7f\x62\xc3\xa9\xff", b"\x7f\x61\x61\x41\x62\xff", b"\x5f\x41\x61\x61\x62\xff", b"\x7f\x7f\xff\xff",
+              b"\x5f\x5f\xff\xff", b"\x7f\x78\x01\x61\x79\x00\x01\x62\xff", b"\x7f\x61\x61", b"\x7f\x7c\xff", b"\x5f\x5b" + b"\xff" * 8, b"\x7b" + b"\xff" * 8,
+              b"\x9b" + b"\xff" * 8 + b"\x00", b"\xbb" + b"\xff" * 8 + b"\x60", b"\x3b\x7f" + b"\xff" * 7, b"\x3b\x80" + b"\x00" * 7, b"\x1b" + b"\xff" * 8):
+        out.append(("-", s))
+        out += [("-", s[:i]) for i in range(len(s))]
+    return out
+
+
+def model_line(line):
+    t = line.split()
+    return "bin mdec cbor %s %s" % (t[4], t[5])
+
+
+def model_tie(stats):
+    """the cbor_parser model against the real decoder: the same error code, or the same value once the model's member lists went
+    through what a json_decoder does to them (first duplicate wins, sorted for `json`); `skip` = outside the modelled fragment"""
+    def compare(line, impl, model):
+        if model == "skip":
+            stats["skip"] += 1
+            return True
+        stats["tied"] += 1
+        if not model.startswith("ok "):
+            if model.startswith("err"):
+                stats["errors"] += 1
+            return impl == model
+        if not impl.startswith("ok "):
+            return False
+        if impl == model:
+            return True
+        try:
+            want = wire.canon_nan(wire.normalize_objects(wire.parse_all(model[3:])[0], line.split()[3]))
+            have = wire.canon_nan(wire.strip_tag(wire.parse_all(impl[3:])[0], "noesc"))
+        except RecursionError:
+            return False
+        return have == want
+    return compare
+
+
 def streams(ctx, rng, scale):
     lw = vlib.witness_lines(PROP)
     ctx.correspond("finding-witnesses", HARNESS, lw, oracle, nontrivial, ref_lines=with_ref(lw), want_model=False)
@@ -258,6 +347,12 @@ def streams(ctx, rng, scale):
         if fmt != "bson":
             lx = [dec_line(fmt, "j", b, "m4096" if fmt == "ubjson" else "-") for b in cbor_exhaustive(2 if ctx.tier == "quick" else 3, rng, 100000)]
             ctx.correspond(fmt + "-exhaustive-short", HARNESS, lx, oracle, nontrivial, ref_lines=with_ref(lx), want_model=False)
+    # the cbor_parser MODEL (JV.Model.CborParser: read_item / read_uint64 / read_int64 / iterate_string_chunks / the parse_mode stack /
+    # the key-rendering adaptor) against the real decoder, on the inputs judged above and on tag-free inputs of its own
+    lm = lc + le + ["bin dec cbor %s %s x%s" % ("j" if rng.random() < 0.7 else "o", o, b.hex()) for o, b in model_inputs(rng, 1500 * scale, ctx.tier)]
+    stats = {"skip": 0, "tied": 0, "errors": 0}
+    st = ctx.correspond("cbor-decoder-model", HARNESS, lm, None, nontrivial, compare=model_tie(stats), model_lines=[model_line(l) for l in lm])
+    st.update({"model_answered": stats["tied"], "model_answered_error": stats["errors"], "outside_fragment": stats["skip"]})
 
 
 def run(ctx):
